@@ -332,7 +332,7 @@ func c19Sizes(rng *rand.Rand, idx int) []Case {
 }
 
 func c19ConnectTo(rng *rand.Rand) []Case {
-	hosts := []string{"example.com", "10.0.0.1", "localhost", "a.b", "h"}
+	hosts := []string{"example.com", "10.0.0.1", "localhost", "a.b", "h", "API.Internal", "Sapo.Invalid", "MiXeD.example.COM"}
 	n := 1 + rng.Intn(6)
 	var vals []string
 	var pairs [][2]string
